@@ -62,9 +62,11 @@ ALookup == On("Lookup") /\ \E t \in LiveTab(S), how \in {"getattr", "row"} :
 AWriteByName == On("WriteByName") /\ \E t \in LiveTab(S) : \E i \in 1..Len(S.cols[t]) :
              \E r \in 1..Len(Contents(S, S.cols[t][i])), x \in Vals, s \in One :
              Do(WriteVec(S, S.cols[t][i], r, x, s), Act("Write", S.cols[t][i], s, r, x, <<>>, "byname", ""))
+AConcatEmpty == On("ConcatEmpty") /\ DeadObjs(S) # {} /\ \E o \in LiveVec(S) : Len(Contents(S, o)) > 0 /\
+             Do(ConcatEmpty(S, o), Act("ConcatEmpty", o, 0, 0, 0, <<>>, NoName, ""))
 ADir == On("Dir") /\ \E t \in LiveTab(S) : Do(Dir(S, t), Act("Dir", t, 0, 0, 0, <<>>, NoName, ""))
 
-Next == AWriteByName \/ ADir \/ ANewVec \/ AShareVec \/ ADropTuple \/ ACopy \/ ADrop \/ AWrite \/ AReadFpV \/ ANewTable
+Next == AWriteByName \/ ADir \/ AConcatEmpty \/ ANewVec \/ AShareVec \/ ADropTuple \/ ACopy \/ ADrop \/ AWrite \/ AReadFpV \/ ANewTable
         \/ ASetAttr \/ AColView \/ ADropTable \/ AReadFpT \/ ARename \/ ARenameColumn \/ ALookup
 Spec == Init /\ [][Next]_vars
 Bound == Len(path) < MaxDepth
@@ -99,7 +101,7 @@ WritesLocal == [][ last'.a \in {"Write", "SetAttr"} =>
                     LET tgt == IF last'.a = "Write" THEN Entity(st, last'.x) ELSE Entity(st, last'.x) IN
                     \A x \in (st.live \cap st'.live) \ tgt : ViewOf(st', x) = ViewOf(st, x) ]_vars
 (* read-only / constructing calls never change an existing object's view *)
-PureOps == [][ last'.a \in {"NewVec", "ShareVec", "Copy", "ReadFpV", "ReadFpT", "NewTable", "ColView", "Lookup", "Drop", "DropTuple", "DropTable"} =>
+PureOps == [][ last'.a \in {"NewVec", "ShareVec", "Copy", "ConcatEmpty", "ReadFpV", "ReadFpT", "NewTable", "ColView", "Lookup", "Drop", "DropTuple", "DropTable"} =>
                     \A x \in st.live \cap st'.live : ViewOf(st', x) = ViewOf(st, x) ]_vars
 (* a refused or failed call changes nothing at all (C01, C08) *)
 FailedChangesNothing == [][ last'.res \in {"Refused", "Err"} => st' = st ]_vars
@@ -114,7 +116,7 @@ WritesLocalStep ==
     last'.a \in {"Write", "SetAttr"} =>
         \A x \in (st.live \cap st'.live) \ Entity(st, last'.x) : ViewOf(st', x) = ViewOf(st, x)
 PureOpsStep ==
-    last'.a \in {"NewVec", "ShareVec", "Copy", "ReadFpV", "ReadFpT", "NewTable", "ColView", "Lookup", "Dir", "Drop", "DropTuple", "DropTable"} =>
+    last'.a \in {"NewVec", "ShareVec", "Copy", "ConcatEmpty", "ReadFpV", "ReadFpT", "NewTable", "ColView", "Lookup", "Dir", "Drop", "DropTuple", "DropTable"} =>
         \A x \in st.live \cap st'.live : ViewOf(st', x) = ViewOf(st, x)
 FailedStep == last'.res \in {"Refused", "Err"} => st' = st
 WriteChangesFpStep ==
